@@ -276,7 +276,67 @@ def high_bytes(d, toks, rng):
     return bytes(b)
 
 
+IDENT_LENGTHS = (63, 64, 65, 255, 256, 257, 300, 1023, 1024, 1025, 5000, 70000)
+CLOSERS = (b">", b")", b"}", b"]")
+
+
+def long_name(orig, length):
+    """a name of exactly `length` characters that keeps the first character (case matters to the parser) of `orig`"""
+    first = orig[:1] if orig[:1].isalpha() or orig[:1] == b"_" else b"a"
+    return first + b"a" * (length - 1)
+
+
+def ident_targets(d, toks):
+    """token indices whose text can be stretched: identifiers / keywords-as-names and string literals"""
+    return [i for i, t in enumerate(toks) if t[2] == "id" or (t[2] == "str" and t[1] - t[0] >= 2)]
+
+
+def stretch(d, toks, k, length, everywhere=False):
+    """replace token k (identifier: the whole token; string literal: its contents) by a name of `length` characters;
+    everywhere=True renames every occurrence of that identifier"""
+    s, e, kind = toks[k]
+    if kind == "str":
+        return d[:s + 1] + long_name(d[s + 1:e - 1] or b"s", length) + d[e - 1:]
+    old = d[s:e]
+    new = long_name(old, length)
+    if not everywhere:
+        return d[:s] + new + d[e:]
+    out = []
+    pos = 0
+    for (ts, te, tk) in toks:
+        if tk == "id" and d[ts:te] == old:
+            out.append(d[pos:ts])
+            out.append(new)
+            pos = te
+    out.append(d[pos:])
+    return b"".join(out)
+
+
+def ident_length(d, toks, rng):
+    """identifier-length mutator: any identifier (variable, function, type, field, module qualifier, component of
+    A.B / A.B.C) or string literal (import paths included) becomes 63..70000 characters long.  Not cut at 64 KiB."""
+    tg = ident_targets(d, toks)
+    if not tg:
+        return long_name(b"a", rng.choice(IDENT_LENGTHS))
+    k = rng.choice(tg)
+    return stretch(d, toks, k, rng.choice(IDENT_LENGTHS), everywhere=rng.random() < 0.4)
+
+
+def closer_positions(d, toks):
+    return [i for i, t in enumerate(toks) if t[2] == "ch" and d[t[0]:t[1]] in CLOSERS]
+
+
+def delete_closer(d, toks, rng):
+    """delete exactly one closing bracket token (`>`, `)`, `}`, `]`)"""
+    cp = closer_positions(d, toks)
+    if not cp:
+        return unbalanced(d, toks, rng)
+    s, e, _ = toks[rng.choice(cp)]
+    return d[:s] + d[e:]
+
+
 MUTATORS = {
+    "ident_length": ident_length, "delete_closer": delete_closer,
     "byte_flip": byte_flip, "byte_insert": byte_insert, "byte_delete": byte_delete, "byte_dup": byte_dup,
     "tok_delete": tok_delete, "tok_dup": tok_dup, "tok_swap": tok_swap, "tok_keyword": tok_keyword,
     "tok_bracket": tok_bracket, "tok_insert": tok_insert, "tok_operator": tok_operator,
@@ -287,7 +347,7 @@ MAX_INPUT = 64 << 10          # the property's time budget is stated for inputs 
 
 
 def havoc(d, toks, rng):
-    names = sorted(MUTATORS)
+    names = sorted(n for n in MUTATORS if n != "ident_length")
     for _ in range(rng.randrange(2, 7)):
         d = MUTATORS[rng.choice(names)](d, tokenize(d), rng)[:MAX_INPUT]
     return d
@@ -548,6 +608,162 @@ shadow main { assert true }
 """,
     "empty": b"",
     "hello": b"fn main() -> int {\n    (println \"hello\")\n    return 0\n}\nshadow main { assert true }\n",
+    # generic / built-in parameterised types in every type position
+    "generic_types": b"""struct Reg {
+    names: HashMap<string, int>,
+    rows: array<HashMap<string, int>>,
+    items: List<int>,
+    grid: array<array<int>>,
+    count: int
+}
+union Store {
+    Mem { m: HashMap<string, int> },
+    Seq { xs: array<array<string>>, l: List<string> },
+    Nil { }
+}
+fn apply(f: fn(HashMap<string, int>) -> int, g: fn(array<int>, List<int>) -> array<int>) -> int {
+    return 0
+}
+shadow apply { assert true }
+fn build(seed: HashMap<string, int>, rows: array<HashMap<string, int>>) -> HashMap<string, int> {
+    let hm: HashMap<string, int> = (map_new)
+    let t: (HashMap<string, int>, array<int>) = (hm, [1, 2])
+    return hm
+}
+shadow build { assert true }
+fn main() -> int {
+    let hm: HashMap<string, int> = (map_new)
+    let hi: HashMap<int, string> = (map_new)
+    return 0
+}
+shadow main { assert true }
+""",
+    "generic_nested": b"""union Result<T, E> {
+    Ok { value: T },
+    Error { error: E }
+}
+struct Box {
+    r: Result<int, string>,
+    m: HashMap<string, array<int>>,
+    f: fn(int, HashMap<string, int>) -> Result<int, string>
+}
+fn wrap(x: int) -> Result<array<int>, string> {
+    return Result.Error { error: "no" }
+}
+shadow wrap { assert true }
+fn main() -> int {
+    let r: Result<array<int>, string> = (wrap 1)
+    return 0
+}
+shadow main { assert true }
+""",
+    # module-qualified names (two and three parts) in type and call positions
+    "qualified_types": b"""import "modules/std/collections/stringbuilder.nano" as Sb
+struct Holder {
+    one: Mod.Thing,
+    two: Mod.Inner.Thing,
+    three: array<Mod.Inner.Thing>
+}
+union Wrap {
+    A { v: Mod.Inner.Thing },
+    B { w: Sb.StringBuilder }
+}
+fn ret_two() -> Mod.Thing {
+    return 0
+}
+fn ret_three(p: Mod.Inner.Thing, q: Sb.StringBuilder) -> Mod.Inner.Thing {
+    let a: Mod.Inner.Thing = 0
+    let b: Mod.Thing = 0
+    let c: Sb.StringBuilder = (Sb.sb_new)
+    let d: Mod.Thing = Mod.Thing { x: 1 }
+    let e: int = (Mod.Inner.func 1)
+    let f: int = Mod.Inner.value
+    match p {
+        Mod.Some(s) => { return 0 }
+    }
+    return a
+}
+fn main() -> int {
+    return 0
+}
+shadow main { assert true }
+""",
+    # contracts that look into aggregates
+    "contracts_field": b"""struct P { x: int, y: int }
+fn mk(a: int) -> P
+    requires (> a 0)
+    ensures (> result.x 0)
+    ensures (== result.y (* result.x 2))
+{
+    return P { x: a, y: (* a 2) }
+}
+shadow mk { assert (== (mk 1).x 1) }
+fn shift(p: P, d: int) -> P
+    requires (>= p.x 0)
+    requires (and (> d 0) (< p.y 100))
+    ensures (> result.x p.x)
+{
+    return P { x: (+ p.x d), y: p.y }
+}
+shadow shift { assert true }
+fn pair(a: int) -> (int, int)
+    ensures (== result.0 a)
+{
+    return (a, a)
+}
+shadow pair { assert true }
+fn firsts(xs: array<int>) -> array<int>
+    requires (> (array_length xs) 0)
+    ensures (== (at result 0) (at xs 0))
+    ensures (== result [1])
+{
+    return xs
+}
+shadow firsts { assert true }
+fn neg(a: int) -> int
+    ensures (== result -a)
+    ensures (if (> a 0) { (< result 0) } else { true })
+    ensures (cond ((> a 0) (< result 0)) (else true))
+{
+    return -a
+}
+shadow neg { assert true }
+fn main() -> int { return 0 }
+shadow main { assert true }
+""",
+}
+
+# seeds whose every token boundary / closing bracket / identifier is enumerated in BOTH tiers
+PRIORITY_SEEDS = ("generic_types", "generic_nested", "qualified_types", "contracts_field")
+
+# multi-file inputs: the main file is always written as i.nano, the others next to it
+def _m(body=b""):
+    return body + b"fn main() -> int { return 0 }\nshadow main { assert true }\n"
+
+
+def _lib(name, imports=b""):
+    return imports + b"fn " + name + b"() -> int { return 1 }\nshadow " + name + b" { assert true }\n"
+
+
+MULTI = {
+    "chain_ok": {"i.nano": _m(b'import "b.nano"\n'), "b.nano": _lib(b"fb", b'import "c.nano"\n'), "c.nano": _lib(b"fc")},
+    "import_twice": {"i.nano": _m(b'import "b.nano"\nimport "b.nano"\nimport "./b.nano"\n'), "b.nano": _lib(b"fb")},
+    "diamond_ok": {"i.nano": _m(b'import "b.nano"\nimport "c.nano"\n'), "b.nano": _lib(b"fb", b'import "d.nano"\n'),
+                   "c.nano": _lib(b"fc", b'import "d.nano"\n'), "d.nano": _lib(b"fd")},
+    "self_import": {"i.nano": _m(b'import "i.nano"\n')},
+    "self_import_from": {"i.nano": _m(b'from "i.nano" import main\n')},
+    "cycle2": {"i.nano": _m(b'import "b.nano"\n'), "b.nano": _lib(b"fb", b'import "i.nano"\n')},
+    "cycle2_from": {"i.nano": _m(b'from "b.nano" import fb\n'), "b.nano": _lib(b"fb", b'from "i.nano" import main\n')},
+    "cycle2_alias": {"i.nano": _m(b'import "b.nano" as B\n'), "b.nano": _lib(b"fb", b'import "i.nano" as I\n')},
+    "cycle3": {"i.nano": _m(b'import "b.nano"\n'), "b.nano": _lib(b"fb", b'import "c.nano"\n'),
+               "c.nano": _lib(b"fc", b'import "i.nano"\n')},
+    "lib_cycle": {"i.nano": _m(b'import "p.nano"\n'), "p.nano": _lib(b"fp", b'import "q.nano"\n'),
+                  "q.nano": _lib(b"fq", b'import "p.nano"\n')},
+    "lib_self": {"i.nano": _m(b'import "p.nano"\n'), "p.nano": _lib(b"fp", b'import "p.nano"\n')},
+    "import_empty_file": {"i.nano": _m(b'import "e.nano"\n'), "e.nano": b""},
+    "import_garbage": {"i.nano": _m(b'import "g.nano"\n'), "g.nano": b"fn (( else \x00\xff {"},
+    "import_unterminated": {"i.nano": _m(b'import "g.nano"\n'), "g.nano": b"fn fb() -> int { return (+ 1 \"abc"},
+    "import_deep": {"i.nano": _m(b'import "g.nano"\n'), "g.nano": _lib(b"fb") + b"fn deep() -> int { return " + b"(+ 1 " * 1001 + b"1" + b")" * 1001 + b" }\n"},
 }
 
 # hostile but tiny hand-made inputs (regression corpus of shapes that hurt recursive-descent parsers)
